@@ -18,6 +18,9 @@ HANDLES = {
 # exists) are outside the invariant; the interpreter marks such arenas `owned` by their type (Vec<Node>, not Table)
 EXEMPT = {}
 OPTS = {"loop_bound": 3}
+DEEPER = False     # thorough tier: more configurations and the mutant corpus, same unrolling
+ASSUMES = ["pt/models.py std model", "free-list slots hold no value (established by R04.3)"]
+LEVEL_TEXT = __doc__
 
 
 def mutator_set(F):
